@@ -420,5 +420,7 @@ func (c26) stop(sc *engine.Scenario) *engine.Result {
 		phase = "mid"
 	}
 	res.Sig(fmt.Sprintf("stop/%s/%s/%s/audio=%v/video=%v/lcdoff=%v", kind, w.Kind, phase, w.Audio, w.Video, lcdOff))
+	t.checkpoint()
+	res.Digest = uint64(t.dg) ^ m.N
 	return res
 }
